@@ -132,9 +132,6 @@ Definition plain_char (c : ascii) : bool :=
   negb (ascii_eqb c comma) && negb (ascii_eqb c dquote) && negb (ascii_eqb c nl) && negb (ascii_eqb c cr).
 Definition plain (s : text) : bool := forallb plain_char s.
 Definition no_break (s : text) : bool := forallb (fun c => negb (is_break c)) s.
-(* unquoted cells are plain and non-empty (str() of a number); quoted cells are arbitrary strings *)
-Definition field_ok (f : field) : bool :=
-  match f with FU s => plain s && negb (Nat.eqb (List.length s) 0) | FQ s => true end.
 Definition field_no_break (f : field) : bool := match f with FU s => true | FQ s => no_break s end.
 
 Definition field_eqb (a b : field) : bool :=
